@@ -76,8 +76,13 @@ def gen_case(rng, *, max_n=8, p_fail=0.15, runner='l1', allow_dups=True, ntypes=
     n = rng.randint(1, max_n)
     shape = rng.choice(['random', 'random', 'chain', 'diamond', 'fan', 'shared_leaf'])
     types = [rng.randrange(ntypes) for _ in range(n)]
-    if rng.random() < 0.3:
+    r = rng.random()
+    if r < 0.25:
         types = [rng.choice([2, 3])] * n          # everything on one max_parallel=1 type pair
+    elif r < 0.45:
+        # everything on a max_parallel=2 or 3 type, cached or not (cache=None types share one cache key), mostly independent tasks
+        types = [rng.choice([[4], [5], [6], [7], [4, 5], [6, 7]][rng.randrange(6)]) for _ in range(n)]
+        shape = rng.choice(['fan', 'fan', shape])
     specs, reads, behs = [], [], []
     for t in range(n):
         if t == 0:
@@ -566,6 +571,22 @@ def run_case(case, workdir=None, backend_factory=None, catch_ki=False, around_ru
         if t not in loaded:
             todo += U.flat(o.deps)
     obs['unmarked'] = sorted(unmarked)
+    # the object layer as labtech's own search sees it (Model/ObjPlan.v): every object built for this case in creation
+    # order, the dependency instances of each, the requested objects, and which objects ended up marked
+    from labtech.tasks import get_direct_dependency_instances
+    oid = {id(o): i for i, o in enumerate(built.all_objects)}
+    try:
+        obs['objects'] = dict(
+            cls=[o.label for o in built.all_objects],
+            # the harness's own traversal of the parameter tree (every occurrence, duplicates kept) ...
+            kids=[[oid.get(id(k), 9999) for k in U.flat(o.deps)] for o in built.all_objects],
+            # ... which labtech's search must agree with
+            kids_real=[[oid.get(id(k), 9999) for k in get_direct_dependency_instances(o)] for o in built.all_objects],
+            req=[oid[id(o)] for o in built.req],
+            ok=sorted(finished_ok),
+            marked=sorted(i for i, o in enumerate(built.all_objects) if o.result_meta is not None))
+    except BaseException as e:   # noqa
+        obs['objects'] = dict(error=repr(e)[:200])
     if own:
         shutil.rmtree(workdir, ignore_errors=True)
     return obs
@@ -591,6 +612,13 @@ def emit_cfg(case):
                 g_nats([t for t, _ in case['req']]),
                 g_list([g_pair(t, g_val(pure[t])) for t in case['pre']]),
                 g_bool(case['bust']), g_bool(case['cont'])))
+
+
+def emit_ocase(case, obs):
+    og = obs['objects']
+    return ('{| oc_cfg := %s; oc_graph := {| nobj := %d; ocls := %s; okids := %s; oreq := %s |}; oc_ok := %s; oc_marked := %s |}' % (
+        emit_cfg(case), len(og['cls']), g_nats(og['cls']), g_list([g_nats(k) for k in og['kids']]), g_nats(og['req']),
+        g_nats(og['ok']), g_nats(og['marked'])))
 
 
 def emit_events(obs):
